@@ -21,7 +21,7 @@ type op struct {
 
 func (o op) tree() sx.T {
 	switch o.kind {
-	case 0, 3:
+	case 0, 3, 9, 10:
 		return sx.L{sx.I(int64(o.kind))}
 	case 1:
 		return sx.L{sx.I(1), sx.B(o.data), sx.Bool(o.eom)}
@@ -66,8 +66,10 @@ func view(q *tds.PacketQueue) sx.T {
 }
 
 type queue struct {
-	q  *tds.PacketQueue
-	ps int
+	q        *tds.PacketQueue
+	ps       int
+	sip, sid int  // position saved by op 9
+	saved    bool // ... and still valid (no discard / reset since)
 }
 
 func newQueue() *queue {
@@ -87,6 +89,16 @@ func (qq *queue) apply(o op) (obs sx.T, panicked bool) {
 	switch o.kind {
 	case 0:
 		q.Reset()
+		qq.saved = false
+		return sx.L{}, false
+	case 9:
+		qq.sip, qq.sid = q.Position()
+		qq.saved = true
+		return sx.L{}, false
+	case 10:
+		if qq.saved {
+			q.SetPosition(qq.sip, qq.sid)
+		}
 		return sx.L{}, false
 	case 1:
 		p := &tds.Packet{Data: append([]byte{}, o.data...)}
@@ -101,6 +113,7 @@ func (qq *queue) apply(o op) (obs sx.T, panicked bool) {
 		return sx.L{}, false
 	case 3:
 		q.DiscardUntilCurrentPosition()
+		qq.saved = false
 		return sx.L{}, false
 	case 4:
 		bs, err := q.Bytes(o.a)
@@ -191,6 +204,21 @@ func runFn2(out *sx.Out, ops []op, tag string) {
 	out.Case(2, in[:len(res)], res, tag)
 }
 
+// fn 4: rx history with explicit save / restore operations
+func runFn4(out *sx.Out, ops []op, tag string) {
+	qq := newQueue()
+	var in, res sx.L
+	for _, o := range ops {
+		in = append(in, o.ftree())
+		obs, p := qq.apply(o)
+		res = append(res, obs)
+		if p {
+			break
+		}
+	}
+	out.Case(4, in[:len(res)], res, tag)
+}
+
 type write struct {
 	ps   int
 	data []byte
@@ -269,6 +297,65 @@ func main() {
 		}
 	}
 	rec(nil, 0)
+
+	// ---- fn 4: save / restore as operations of their own: exhaustive short histories, random longer ones
+	{
+		alpha4 := []op{{kind: 1, data: make([]byte, 2)}, {kind: 1, data: make([]byte, 3)}, {kind: 4, a: 1}, {kind: 4, a: 3}, {kind: 4, a: 5},
+			{kind: 9}, {kind: 10}, {kind: 3}, {kind: 6, a: 2}}
+		max4 := 5
+		if thorough {
+			max4 = 6
+		}
+		var rec4 func(prefix []op, depth int)
+		rec4 = func(prefix []op, depth int) {
+			if len(prefix) >= 3 {
+				ops := make([]op, len(prefix))
+				for i, o := range prefix {
+					if o.kind == 1 {
+						o.data = seqBytes(&ctr, len(o.data))
+					}
+					ops[i] = o
+				}
+				runFn4(out, ops, fmt.Sprintf("tape-exhaustive;len=%d", len(prefix)))
+			}
+			if depth == max4 {
+				return
+			}
+			for _, a := range alpha4 {
+				rec4(append(prefix, a), depth+1)
+			}
+		}
+		rec4(nil, 0)
+		n4 := 2000
+		if thorough {
+			n4 = 60000
+		}
+		for c := 0; c < n4; c++ {
+			l := rng.Range(5, 40)
+			ops := make([]op, l)
+			for i := range ops {
+				switch r := rng.Intn(100); {
+				case r < 28:
+					ops[i] = op{kind: 1, data: rng.Bytes(rng.Intn(16))}
+				case r < 50:
+					ops[i] = op{kind: 4, a: rng.Intn(24)}
+				case r < 60:
+					ops[i] = op{kind: 6, a: []int{1, 2, 4, 8}[rng.Intn(4)]}
+				case r < 72:
+					ops[i] = op{kind: 9}
+				case r < 86:
+					ops[i] = op{kind: 10}
+				case r < 93:
+					ops[i] = op{kind: 3}
+				case r < 95:
+					ops[i] = op{kind: 0}
+				default:
+					ops[i] = op{kind: 8, a: rng.Intn(30)}
+				}
+			}
+			runFn4(out, ops, "tape-random")
+		}
+	}
 
 	// ---- fn 2: random longer rx histories
 	nrand := 3000
